@@ -1,7 +1,6 @@
 """Properties not claimed, with the reason (entries are ignored once a property is claimed in props.py)."""
 WIP = "check not built yet (work in progress; see DESIGN.md section 8)"
 NA = {
-    "C08": "minimal 2x2 lexicase instance exceeds 30 GB / 15 min under Kani/CBMC (heap-allocated candidate sets with symbolic membership plus rand's shuffle arithmetic); rand's shuffle cannot be stubbed (Kani ICE on generic foreign trait methods); measured in DESIGN.md 3.3",
     "C09": "both stepping functions draw from rand::rng() (OS-seeded thread-local ChaCha: Kani compiler ICE as soon as it is reachable) and par_next needs threads (rayon); neither can be encoded for CBMC",
     "C11": WIP, "C12": WIP, "C16": WIP, "C19": WIP,
 }
